@@ -151,6 +151,62 @@ __CPROVER_assigns(g_out)
                       desc=f"get_simplex_vertices over Bitfield_encoding<{ST}>: the code of a simplex is decoded into exactly its vertices, largest first"))
 
 
+def boundary_enumerator_units(U):
+    """Simplex_boundary_enumerator over Bitfield_encoding<uint64_t>: the facets of a simplex, from the one opposite
+    the largest vertex down, with coefficient (-1)^position * c modulo p (simplices with at most 4 vertices, bounded)"""
+    ST = "uint64_t"
+    TD = {"vertex_t": "int", "dimension_t": "int8_t", "simplex_t": ST, "coefficient_t": "uint_least32_t", "value_t": "float"}
+    SUBS = [(r"static_assert\([^;]*\);", "", 0), (r"std::numeric_limits<simplex_t>::digits", "VP_DIGITS", 0)]
+    G = ND + """#define VP_DIGITS 64
+int bits_per_vertex; int extra_bits;
+typedef struct { bool has; } vp_opt;
+typedef int diameter_entry_t;                 /* opaque here: the enumerator only hands it to the parent */
+uint64_t idx_below, idx_above; int j; int8_t k; int8_t dim; diameter_entry_t simplex;
+/* the parent Rips_filtration (R13 stubs): */
+int g_n; uint64_t g_simplex_idx; uint_least32_t g_coef, modulus; uint64_t g_face_idx; uint_least32_t g_face_coef; int g_made;
+#define PARENT_get_index(s) (g_simplex_idx)
+#define PARENT_compute_diameter(i, d) (0.0f)
+#define PARENT_get_coefficient(s) (g_coef)
+#define PARENT_make_diameter_entry(d, i, c) (g_face_idx = (i), g_face_coef = (c), g_made++, (vp_opt){true})
+int g_v[5]; int g_k;
+"""
+    f_enc = Fn(RP, r"simplex_t operator\(\)\(vertex_t n, dimension_t k\) const", "bf_encode", "", within=r"class Bitfield_encoding \{", sig_subs=[(r"operator\(\)", "bf_encode")], subs=SUBS)
+    f_max = Fn(RP, r"vertex_t get_max_vertex\(const simplex_t idx, dimension_t k, const vertex_t\) const", "bf_get_max_vertex", "", within=r"class Bitfield_encoding \{",
+               sig_subs=[(r"const vertex_t\)", "const vertex_t vp_unused)")], subs=SUBS)
+    PS = [(r"const coefficient_t modulus = parent\.modulus;", "", 0), (r"parent\.get_index\(", "PARENT_get_index(", 0), (r"parent\.n\b", "g_n", 0), (r"parent\.compute_diameter\(", "PARENT_compute_diameter(", 0),
+          (r"parent\.modulus", "modulus", 0), (r"parent\.get_coefficient\(", "PARENT_get_coefficient(", 0), (r"parent\.make_diameter_entry\(", "PARENT_make_diameter_entry(", 0),
+          (r"simplex_encoding\.get_max_vertex\(", "bf_get_max_vertex(", 0), (r"simplex_encoding\(", "bf_encode(", 0), (r"std::nullopt", "(vp_opt){false}", 0),
+          (r"std::optional<diameter_entry_t>", "vp_opt", 0)]
+    W = r"class Simplex_boundary_enumerator \{"
+    f_set = Fn(RP, r"void set_simplex\(const diameter_entry_t _simplex, const dimension_t _dim\)", "be_set_simplex", "", within=W, subs=[s_ for s_ in PS if s_[0].startswith("parent")])
+    f_has = Fn(RP, r"bool has_next\(\)", "has_next", "", within=W)
+    f_next = Fn(RP, r"std::optional<diameter_entry_t> next\(\)", "be_next", "", within=W, sig_subs=[(r"std::optional<diameter_entry_t>", "vp_opt")], subs=PS)
+    lem = """
+  for (int t = 0; t < 5; t++) g_v[t] = nondet_int();
+  g_k = nondet_int(); bits_per_vertex = nondet_int(); modulus = nondet_uint(); g_coef = nondet_uint();
+  __CPROVER_assume(g_k >= 1 && g_k <= 4 && bits_per_vertex >= 1 && bits_per_vertex <= 6 && (modulus == 2 || modulus == 3 || modulus == 5 || modulus == 7 || modulus == 11) && g_coef >= 1 && g_coef < modulus);
+  uint64_t code = 0;
+  for (int t = 0; t < 5; t++) if (t < g_k) { __CPROVER_assume(g_v[t] >= 0 && (uint64_t)g_v[t] < ((uint64_t)1 << bits_per_vertex) && (t == 0 || g_v[t] > g_v[t - 1])); code += ((uint64_t)g_v[t]) << (bits_per_vertex * t); }
+  g_n = 1 << bits_per_vertex; g_simplex_idx = code; g_made = 0;
+  be_set_simplex(0, (int8_t)(g_k - 1));
+  for (int t = 0; t < 5; t++) if (t < g_k) {
+    int p = g_k - 1 - t;                      /* position of the vertex that is removed: largest first */
+    vp_opt r = be_next();
+    uint64_t want = 0;
+    for (int q = 0; q < 5; q++) if (q < g_k && q != p) want += ((uint64_t)g_v[q]) << (bits_per_vertex * (q < p ? q : q - 1));
+    __CPROVER_assert(r.has && g_made == t + 1, "one facet per call");
+    __CPROVER_assert(g_face_idx == want, "facet index: the code of the simplex without that vertex");
+    __CPROVER_assert(g_face_coef == ((p & 1) ? (modulus - g_coef) % modulus : g_coef), "facet coefficient: (-1)^position times the coefficient, modulo p");
+  }
+  vp_opt last = be_next();
+  __CPROVER_assert(!last.has && g_made == g_k, "exactly dim + 1 facets");
+"""
+    U.append(Unit("boundary_enumerator.u64", "C11", [f_enc, f_max, f_set, f_has, f_next], no_enforce=True, typedefs=TD, globals_=G, unwind=7, route="B",
+                  bound="simplices with at most 4 vertices, at most 6 bits per vertex, modulus in {2, 3, 5, 7, 11}", inputs=["g_v", "g_k", "bits_per_vertex", "modulus", "g_coef"],
+                  harness=H("", "", post=lem), runs=[Run(backend="kissat", timeout=600)],
+                  desc="Simplex_boundary_enumerator over Bitfield_encoding<uint64_t>: yields exactly the dim + 1 facets (largest vertex removed first), each with index = code without that vertex and coefficient (-1)^position * c mod p"))
+
+
 def coeff_units(U):
     """entry_with_coeff_t packing: index << bits | (coefficient - 1)"""
     for sname, ST, DIG in (("u64", "uint64_t", 64), ("u128", "unsigned __int128", 128)):
@@ -527,6 +583,7 @@ def units(tier):
     arith_units(U)
     bitfield_units(U)
     simplex_vertices_units(U)
+    boundary_enumerator_units(U)
     coeff_units(U)
     fake128_units(U)
     matrix_units(U)
